@@ -96,7 +96,9 @@ where
                     for _ in 0..entry.num_items {
                         let (rest, raw_string) = complete::take_till(|item| item == 0)(remaining)?;
                         // the null byte is still in there.. we need to cut it out.
-                        remaining = &rest[1..];
+                        remaining = rest.get(1..).ok_or_else(|| {
+                            Error::Nom("Unterminated string in IndexData::StringArray entry".to_owned())
+                        })?;
                         let string = String::from_utf8_lossy(raw_string).to_string();
                         strings.push(string);
                     }
